@@ -66,10 +66,13 @@ structure Cfg where
       "every activated branch that leads to it has delivered" (`false`, reachability) and "every token of that
       fork activation has arrived or ended" (`true`, lineage tags) -/
   lateJoin : Bool := false
+  /-- D38: an intermediate throw event lets only the FIRST token that reaches it pass; later tokens are consumed
+      there (the node answers `completeAction` once its `activated` flag is set, like a fused end event) -/
+  throwFuse : Bool := false
 deriving Repr, BEq, DecidableEq
 
-def Cfg.ideal : Cfg := ⟨false, false, false, false, false, false⟩
-def Cfg.idealLate : Cfg := ⟨false, false, false, false, false, true⟩
+def Cfg.ideal : Cfg := ⟨false, false, false, false, false, false, false⟩
+def Cfg.idealLate : Cfg := ⟨false, false, false, false, false, true, false⟩
 
 inductive Obs where
   | req (node : String)
@@ -377,6 +380,15 @@ def arrive (cfg : Cfg) (p : Proc) (s : St) (t : Tok) : List Tok × St :=
       else
         let starts := p.nodes.filter (fun m => m.parent == n.id && m.kind == .start)
         spawnStarts (enterSub cfg s t n starts) starts
+    | .throw_ =>
+      -- event_throw.go: every token that reaches the event gets `flowAction` over all outgoing flows (the throw
+      -- itself is the FlowTrace the token leaves with); with `throwFuse` only the first one does
+      if cfg.throwFuse && s.activated.contains n.id then
+        ([], (((s.cause "throw_fused").emit (.complete n.id)).recordTerm t.fid))
+      else
+        let s := { s with activated := if s.activated.contains n.id then s.activated else n.id :: s.activated }
+        let (toks, stay, s) := selectFlows cfg p s t n.outs false
+        (if stay then t :: toks else toks, s)
     | _ => ([], { s with parked := s.parked ++ [t] })
 
 /-- let one inclusive gateway that may synchronise do so (`trySync` + probing report) -/
